@@ -448,6 +448,102 @@ fn run_high_rank(trailing_axes: usize, out: &mut JobOut) {
     out.sample = Some(Json::usizes(&shape));
 }
 
+/// Axes of 2^k + few knots with unit spacing and single knots moved by a quarter: the position
+/// computed from the end points is off by one there, and the search that follows runs over a range of
+/// exactly 2^k + j cells (j = -3 ..= jmax), from either end of the axis. Long axis used as x and as y.
+fn run_huge(k: u32, jmax: i64, out: &mut JobOut) {
+    use ndarray::Array2;
+    use ndarray_interp::interp2d::{Bilinear, Interp2DBuilder};
+    let n = (1usize << k) + jmax as usize + 3;
+    let small = [-1.0f64, 0.5];
+    let val = |i: usize, j: usize| -> f64 { GENERIC[(3 * i + 5 * j) % 11] * (1 + (i + 2 * j) % 3) as f64 };
+    let by_x = Array2::from_shape_fn((n, 2), |(i, j)| val(i, j));
+    let by_y = Array2::from_shape_fn((2, n), |(j, i)| val(i, j));
+    for parity in 0..2i64 {
+        let mut x: Vec<f64> = (0..n).map(|i| i as f64).collect();
+        let mut moved = vec![];
+        for j in (-3..=jmax).filter(|j| (j & 1) == parity) {
+            let up = ((1i64 << k) + j) as usize;
+            let down = (jmax + 2 - j) as usize;
+            if up + 1 < n && up > down + 4 {
+                x[up] += 0.25;
+                moved.push(up);
+            }
+            if down >= 2 && down + 4 < up {
+                x[down] -= 0.25;
+                moved.push(down);
+            }
+        }
+        let mut qs = vec![];
+        for &m in &moved {
+            for d in [-1.0, -0.875, -0.5, -0.25, -0.125, 0.0, 0.125, 0.25, 0.5, 1.0, 1.5] {
+                let q = m as f64 + d;
+                if q >= 0.0 && q <= x[n - 1] {
+                    qs.push(q);
+                }
+            }
+        }
+        let locate = |q: f64| -> usize {
+            let mut i = (q.floor() as usize).min(n - 2);
+            while i > 0 && x[i] > q {
+                i -= 1;
+            }
+            while i + 2 < n && x[i + 1] <= q {
+                i += 1;
+            }
+            i
+        };
+        for long_is_x in [true, false] {
+            let key = format!("huge:2^{k}+{}:{}:{}", jmax + 3, if parity == 0 { "even" } else { "odd" }, if long_is_x { "long-x" } else { "long-y" });
+            let built = if long_is_x {
+                catch(|| Interp2DBuilder::new(by_x.view()).x(ndarray::Array1::from(x.clone())).y(ndarray::Array1::from(small.to_vec())).strategy(Bilinear::new()).build())
+            } else {
+                catch(|| Interp2DBuilder::new(by_y.view()).x(ndarray::Array1::from(small.to_vec())).y(ndarray::Array1::from(x.clone())).strategy(Bilinear::new()).build())
+            };
+            let ip = match built {
+                Ok(Ok(ip)) => ip,
+                other => {
+                    out.violate(format!("{key}:build"), format!("valid input not accepted by build(): {:?}", other.map(|r| r.map(|_| ()))), Json::Null);
+                    continue;
+                }
+            };
+            out.states += 1;
+            for &q in &qs {
+                for s in [-1.0, -0.25, 0.5] {
+                    let i = locate(q);
+                    let (z11, z12, z21, z22) = (val(i, 0), val(i, 1), val(i + 1, 0), val(i + 1, 1));
+                    let (exact, got) = if long_is_x {
+                        (bilinear_ref(x[i], x[i + 1], small[0], small[1], z11, z12, z21, z22, q, s).0, catch(|| ip.interp(q, s)))
+                    } else {
+                        (bilinear_ref(small[0], small[1], x[i], x[i + 1], z11, z21, z12, z22, s, q).0, catch(|| ip.interp(s, q)))
+                    };
+                    out.evals += 1;
+                    out.nontrivial += 1;
+                    out.transitions += 1;
+                    let m = z11.abs().max(z12.abs()).max(z21.abs()).max(z22.abs());
+                    let bad = match &got {
+                        Ok(Ok(v)) => {
+                            let v = v.first().copied().unwrap_or(f64::NAN);
+                            if err_dd(v, exact) <= 24.0 * f64::EPSILON * m {
+                                None
+                            } else {
+                                Some(format!("returned {v:e}, the bilinear blend of the cell gives {:e}", exact.to_f64()))
+                            }
+                        }
+                        other => Some(format!("in-range query not answered: {other:?}")),
+                    };
+                    if let Some(w) = bad {
+                        out.violate(key.clone(), format!("Bilinear over a grid with a long axis of {n} knots (unit spacing, single knots moved by 0.25), long-axis coordinate {q}, other coordinate {s}: {w}"), Json::obj(vec![("n", Json::Int(n as i128)), ("q", Json::Num(q)), ("s", Json::Num(s))]));
+                        break;
+                    }
+                }
+            }
+        }
+    }
+    out.outcome("huge:done");
+    out.sample = Some(Json::obj(vec![("n", Json::Int(n as i128))]));
+}
+
 fn body(ctx: &Ctx) -> (Summary, Meta) {
     let mut jobs = vec![];
     for f32 in [false, true] {
@@ -522,8 +618,14 @@ fn body(ctx: &Ctx) -> (Summary, Meta) {
         run_high_rank(*t, &mut out);
         out
     }));
+    let huge: Vec<(u32, i64)> = if ctx.quick() { vec![(10, 6), (16, 6), (17, 6), (18, 6), (19, 6), (20, 6), (21, 6)] } else { vec![(8, 12), (10, 12), (12, 12), (14, 12), (16, 12), (17, 12), (18, 12), (19, 12), (20, 12), (21, 12), (22, 12), (23, 12), (24, 12)] };
+    sum.merge(run_jobs(ctx, "huge-axes", &huge, |h| format!("huge:2^{}+{}", h.0, h.1 + 3), |h| {
+        let mut out = JobOut::default();
+        run_huge(h.0, h.1, &mut out);
+        out
+    }));
     let meta = Meta {
-        rule: "every ordered pair (x-axis, y-axis) of the 2-D axis alphabet (so non-square grids occur in both orientations) + default index axes; data lanes: unit impulse at every node, 1, x, y, xy, generic table, generic*2^20, 24-bit mantissas, stored in 5 memory layouts; queries = product of the per-axis alphabets {knot, both float neighbours, quarter points}; 7 entry points (allocating with static rank 1/2/3 and dynamic queries, element-wise, and the two *_into forms on buffers that hold NaN beforehand); oracle = exact rational bilinear form of the cell found by two linear scans. Phase big-inputs: long uneven axes (squares, negated squares, powers of two; 66..3000 nodes) against a 3-node axis in both orientations with every knot / neighbour / quarter point of the long axis queried, and 3x2 grids with 32767 / 32768 / 70000 lanes. Phase high-rank-dynamic-data: IxDyn data with 6 .. 24 trailing axes, queries of rank 1, 2 and 4 (results of up to 28 axes), shape and every element checked. Non-trivial = query strictly inside a cell whose corner values are not all equal.".into(),
+        rule: "every ordered pair (x-axis, y-axis) of the 2-D axis alphabet (so non-square grids occur in both orientations) + default index axes; data lanes: unit impulse at every node, 1, x, y, xy, generic table, generic*2^20, 24-bit mantissas, stored in 5 memory layouts; queries = product of the per-axis alphabets {knot, both float neighbours, quarter points}; 7 entry points (allocating with static rank 1/2/3 and dynamic queries, element-wise, and the two *_into forms on buffers that hold NaN beforehand); oracle = exact rational bilinear form of the cell found by two linear scans. Phase big-inputs: long uneven axes (squares, negated squares, powers of two; 66..3000 nodes) against a 3-node axis in both orientations with every knot / neighbour / quarter point of the long axis queried, and 3x2 grids with 32767 / 32768 / 70000 lanes. Phase high-rank-dynamic-data: IxDyn data with 6 .. 24 trailing axes, queries of rank 1, 2 and 4 (results of up to 28 axes), shape and every element checked. Phase huge-axes: axes of 2^k + few knots (k up to 21 quick / 24 thorough), unit spacing with single knots moved by a quarter so that the search after a missed position runs over exactly 2^k + j cells for every j = -3 .. 6 (12 thorough) from either end, as x and as y axis, queries in and around the cells next to each moved knot. Non-trivial = query strictly inside a cell whose corner values are not all equal.".into(),
         bounds: format!("{njobs} (type, grid) jobs; tier {}", ctx.tier.name()),
         assumptions: vec!["tolerance 24 eps max|z_corner| (three nested linear steps)".into()],
         extra: vec![],
